@@ -25,7 +25,7 @@ pub struct C10;
 pub struct Spec {
     pub pool: usize,
     pub subseed: u64,
-    pub kind: String, // backup-prune | prune-backup | backup-backup
+    pub kind: String, // backup-prune | prune-backup | backup-backup | backup-prune-prune
     pub cfg: RepoCfg,
     pub gen: GenParams,
     pub model_seed: u64,
@@ -59,7 +59,7 @@ impl Prop for C10 {
         }
     }
     fn rule(&self) -> &'static str {
-        "one run = two commands (backup||prune, prune||backup, backup||backup) with their own repository handles on one SimStore, every backend call of both (reads included) a gate; \
+        "one run = two commands (backup||prune, prune||backup, backup||backup, backup||two prune runs in a row; in half of the runs everything stored before is older than keep-delete) with their own repository handles on one SimStore, every backend call of both (reads included) a gate; \
          70% of runs use the actor-segmented policy (A runs j ops, then B runs l ops or to its end, then A, then B — j and l drawn over the whole op sequence), the rest random/PCT/starve policies; \
          the prune is non-instant with keep-delete far above the simulated duration of the overlap; overlapping sources share content so the late backup re-uses blobs from packs the prune marks. \
          Oracles: at every prefix of the combined mutation log that removes a pack or publishes a snapshot, every blob referenced by a visible snapshot is physically present in a stored pack; \
@@ -82,7 +82,7 @@ impl Prop for C10 {
         genp.total_cap = 80_000;
         genp.special = false;
         genp.sizes_of_interest = vec![4096];
-        let kind = ["backup-prune", "prune-backup", "backup-backup"][rng.usize(3)].to_string();
+        let kind = ["backup-prune", "prune-backup", "backup-backup", "backup-prune-prune"][rng.usize(4)].to_string();
         let segments = if rng.chance(7, 10) {
             let j = rng.range(0, 22) as usize;
             let l = if rng.chance(1, 2) { usize::MAX } else { rng.range(1, 22) as usize };
@@ -149,6 +149,12 @@ impl Prop for C10 {
             rep.violation(format!("C10/prestate-forget-{}", r.class()), r.detail());
             return rep;
         }
+        // in half of the runs everything stored so far is older than keep-delete when the overlap begins
+        // (keep-delete counts from the moment a pack is marked, not from its creation)
+        if rng.chance(1, 2) {
+            interpose::clock_advance(3 * 86_400_000_000_000);
+            rep.fire("prestate_older_than_keep_delete", 1);
+        }
         let s0 = sim.store.files();
         let keep_delete_s = 86_400;
 
@@ -174,15 +180,19 @@ impl Prop for C10 {
                 let repo = repo_open(&store, actor, &key)?.to_indexed_ids()?;
                 Ok(Some(backup_model(&repo, &m, &sched, actor, &plan2, seed, &BackupOptions::default(), label)?.snap))
             };
+            let twice = kind == "backup-prune-prune";
             let do_prune = |actor: u32| -> RusticResult<Option<SnapshotFile>> {
-                let repo = repo_open(&store, actor, &key)?;
-                let o = prune_opts(repack, keep_delete_s);
-                let p = repo.prune_plan(&o)?;
-                repo.prune(&o, p)?;
+                // backup-prune-prune: two complete non-instant prune runs (fresh handles) while the backup is in progress
+                for _ in 0..(if twice { 2 } else { 1 }) {
+                    let repo = repo_open(&store, actor, &key)?;
+                    let o = prune_opts(repack, keep_delete_s);
+                    let p = repo.prune_plan(&o)?;
+                    repo.prune(&o, p)?;
+                }
                 Ok(None)
             };
             let (a_backs_up, b_backs_up) = match kind.as_str() {
-                "backup-prune" => (true, false),
+                "backup-prune" | "backup-prune-prune" => (true, false),
                 "prune-backup" => (false, true),
                 _ => (true, true),
             };
